@@ -54,6 +54,9 @@ pub enum Preflight {
 /// them - specification program first, then the program; tau*, replace_placeholders, completion,
 /// then the formulas left to right - with the fixpoint loop bounded.  Returns the first event.
 /// Only meaningful when `decompose` reaches the translations (validation passed).
+/// The empty completed definitions appended for missing output predicates (since /repo <COMMIT-F17>)
+/// are left out: `p(V..) <-> #false` is a fixpoint of the portfolio (no panic, no further pass),
+/// so they never are the first event.
 pub fn preflight(task: &ExternalEquivalenceTask) -> Preflight {
     let placeholders: IndexMap<String, fol::FunctionConstant> =
         task.user_guide.placeholders().into_iter().map(|p| (p.name.clone(), p)).collect();
